@@ -137,6 +137,8 @@ enum Case {
   List { flavour: u8, cfg: Cfg, list: Vec<u8> },
   Jwk { wide: bool, seq: Vec<u32> },
   JwkRaw { payload: u8 },
+  /// (a2) the DIDs of `dids` resolved one after the other with `resolve` on ONE resolver
+  History { flavour: u8, cfg: Cfg, dids: Vec<u8> },
 }
 
 // ------------------------------------------------------------------ harness handlers
@@ -491,6 +493,35 @@ fn run_single(flavour: u8, cfg: &Cfg, did: u8) -> Exec<String> {
     }
     Err(p) => Exec { res: Res::Panic(p.into()), log, schedule: gates.schedule(), again: None },
   }
+}
+
+/// `resolve` of every DID of `dids`, in that order, on one resolver: per step the result and the handler calls it made.
+fn run_history(flavour: u8, cfg: &Cfg, dids: &[u8]) -> Vec<(Res<String>, Vec<(String, String)>)> {
+  let log: Log = Default::default();
+  let gates = Gates::new();
+  let mut out = Vec::new();
+  let resolver = match guard(|| build(flavour, cfg, &log, &gates)) {
+    Ok(r) => r,
+    Err(p) => return vec![(Res::Panic(p.into()), vec![])],
+  };
+  for d in dids {
+    let target = &DIDS[*d as usize];
+    let before = log.lock().unwrap().len();
+    let r = guard(|| {
+      let mut ch = Chooser::replay(&[]);
+      match run_with_gates(resolver.resolve(target), &gates, &mut ch) {
+        GateRun::Done(Ok(doc)) => Res::Ok(doc_json(&doc)),
+        GateRun::Done(Err(e)) => {
+          let (v, d) = err_desc(&e);
+          Res::Err(v, d)
+        }
+        GateRun::Deadlock => Res::Deadlock,
+      }
+    });
+    let calls = log.lock().unwrap()[before..].to_vec();
+    out.push((r.unwrap_or_else(|p| Res::Panic(p.into())), calls));
+  }
+  out
 }
 
 fn run_multi(flavour: u8, cfg: &Cfg, list: &[u8], ch: &mut Chooser) -> Exec<BTreeMap<String, String>> {
@@ -1292,6 +1323,33 @@ fn eval(ctx: &Ctx, case: &Case) {
         ctx.distinct(&("single", flavour, cfg, did));
       }
     }
+    Case::History { flavour, cfg, dids } => {
+      ctx.eval1();
+      // what a resolver that has resolved nothing yet answers (judged against the statement by part (a))
+      let fresh: BTreeMap<u8, Exec<String>> = dids.iter().copied().collect::<BTreeSet<u8>>().into_iter().map(|d| (d, run_single(*flavour, cfg, d))).collect();
+      let steps = run_history(*flavour, cfg, dids);
+      if steps.len() != dids.len() {
+        return ctx.violation("Resolver::resolve|history|panic-while-building-the-resolver", &format!("{steps:?}"), case);
+      }
+      let mut differs = false;
+      for (i, ((res, calls), d)) in steps.iter().zip(dids).enumerate() {
+        let f = &fresh[d];
+        if *res != f.res || *calls != f.log {
+          differs = true;
+          let earlier: Vec<&str> = dids[..i].iter().map(|e| uni(*e)).collect();
+          ctx.violation(
+            &format!("Resolver::resolve|after-earlier-resolutions-on-the-same-resolver|{}", if *calls != f.log { "handler-calls-differ-from-a-fresh-resolver" } else { "result-differs-from-a-fresh-resolver" }),
+            &format!("resolve({}) after resolve of {earlier:?} on one resolver: result {res:?}, handler calls {calls:?}; a resolver that has resolved nothing yet: result {:?}, handler calls {:?}", uni(*d), f.res, f.log),
+            case,
+          );
+          break;
+        }
+      }
+      ctx.outcome(if differs { "history:differs-from-fresh-resolver" } else { "history:every-step-as-on-a-fresh-resolver" });
+      if dids.iter().any(|d| matches!(expect(cfg, uni(*d)), Exp::Handler { .. } | Exp::Jwk)) {
+        ctx.distinct(&("history", flavour, cfg, dids));
+      }
+    }
     Case::Schedule { flavour, cfg, list, seq } => {
       let distinct: BTreeSet<u8> = list.iter().copied().collect();
       let mut label = String::new();
@@ -1460,6 +1518,33 @@ fn generate(ctx: &Ctx) {
   ctx.add_transitions(singles.len() as u64);
   ctx.add_traces(singles.len() as u64);
   ctx.part("single resolve", json!({"engine": "E1 full product", "cases": singles.len()}));
+
+  // (a2) histories of single resolutions on one resolver: every DID sequence up to the bound x flavour x one
+  //      configuration per handler table (one gate per handler) + the full table with the foo handler failing at once
+  let hist_len = ctx.by_tier(3usize, 4);
+  let mut hist_cfgs: Vec<Cfg> = tables.iter().map(|t| Cfg { table: *t, k_foo: 1, k_bar: 1, fail_at: None, shape: 0 }).collect();
+  hist_cfgs.push(Cfg { table: T_FOO | T_BAR | T_JWK, k_foo: 1, k_bar: 1, fail_at: Some(0), shape: 0 });
+  let mut seqs: Vec<Vec<u8>> = vec![];
+  let mut layer: Vec<Vec<u8>> = vec![vec![]];
+  for _ in 0..hist_len {
+    layer = layer.iter().flat_map(|l| all_dids.iter().map(move |d| { let mut n = l.clone(); n.push(*d); n })).collect();
+    seqs.extend(layer.iter().filter(|l| l.len() >= 2).cloned());
+  }
+  let mut histories = Vec::new();
+  for flavour in 0..2u8 {
+    for cfg in &hist_cfgs {
+      for dids in &seqs {
+        histories.push(Case::History { flavour, cfg: cfg.clone(), dids: dids.clone() });
+      }
+    }
+  }
+  ctx.sample("history", &histories[histories.len() / 3]);
+  histories.par_iter().for_each(|c| eval(ctx, c));
+  ctx.add_states(histories.len() as u64);
+  ctx.add_transitions(histories.iter().map(|h| if let Case::History { dids, .. } = h { dids.len() as u64 } else { 0 }).sum());
+  ctx.add_traces(histories.len() as u64);
+  ctx.bound("history_max_len", hist_len);
+  ctx.part("histories of single resolutions on one resolver", json!({"engine": "E1 full product", "cases": histories.len(), "sequences": seqs.len(), "configurations": hist_cfgs.len(), "max_len": hist_len}));
 
   // (b)
   let mut all_lists: BTreeSet<Vec<u8>> = lists(&core, max_len).into_iter().collect();
